@@ -106,6 +106,27 @@ Proof.
   split; [vm_compute; reflexivity|]. vm_compute. repeat split; reflexivity.
 Qed.
 
+(* Ref allocation (chunkPos.getNextChunkRef): for every start position (a fresh position, offset 0,
+   or one at or after the header) and every run of WriteChunk calls, each optionally preceded by
+   CutNewFile, with chunks that fit into an empty file: every chunk lies entirely inside its file
+   (after the 8-byte header, ending at or before MaxHeadChunkFileSize = the size of the mapping),
+   starts exactly where the previous one ended or at offset 8 of the next file, and a new file is
+   cut exactly then — so refs strictly increase and no two chunks overlap.  WriteChunk of the
+   state machine allocates with this function (do_write_alloc). *)
+Theorem C25_alloc_within_file : forall steps seq off cutf,
+  (off = 0 \/ 8 <= off) -> (forall st, In st steps -> 8 + snd st <= max_file_size) ->
+  chain seq off (fst (alloc_run seq off cutf steps)).
+Proof. exact alloc_run_chain. Qed.
+
+Example C25_alloc_nonvacuous :
+  (* 50 bytes before the limit: a 60-byte record (30 data bytes) does not fit although its data would *)
+  fst (alloc_run 3 (max_file_size - 50) false [(false, size_of_len 30); (false, size_of_len 20); (true, size_of_len 1)]) =
+    [(true, (4, 8), 60); (false, (4, 68), 50); (true, (5, 8), 31)] /\
+  (* exact fit: no cut; one byte more: cut *)
+  fst (alloc_run 3 (max_file_size - 60) false [(false, size_of_len 30)]) = [(false, (3, max_file_size - 60), 60)] /\
+  fst (alloc_run 3 (max_file_size - 59) false [(false, size_of_len 30)]) = [(true, (4, 8), 60)].
+Proof. vm_compute. repeat split; reflexivity. Qed.
+
 (* Chunk(ref) served from a file: a record lying at offset off of the file's bytes is returned
    with its encoding and data (no matter what follows it) *)
 Theorem C25_chunk_from_file : forall crc bs vlen off r,
